@@ -208,11 +208,22 @@ def r16_4(rep, M, rid):
         rep.violation(rid, "get_extended_system: arguments", f"{[norm(a) for a in c[0].args] if c else None} vs C++ order {want}", M.where(fq))
     fq = GEO + ".get_cell_list"
     fn = M.func(fq)
+    fl = Flow(fn)
     c = [x for x in ast.walk(fn) if isinstance(x, ast.Call) and norm(x.func).endswith("ext.get_cell_list")]
-    if c and [norm(a) for a in c[0].args] == M.params(fq):
-        rep.ok(rid, "get_cell_list passes (positions, cell, pbc, extension, cutoff) through unchanged")
-    else:
-        rep.violation(rid, "get_cell_list: arguments", f"{[norm(a) for a in c[0].args] if c else None}", M.where(fq))
+    if not c:
+        raise AnalysisError("get_cell_list: call of matid.ext.get_cell_list not found")
+    at = fl.node_of(c[0])
+    ps = M.params(fq)
+    for p, a in zip(ps, c[0].args):
+        raw = isinstance(a, ast.Name) and a.id == p and fl.rd[at].get(p) == frozenset([fl.cfg.entry])
+        if raw:
+            rep.ok(rid, f"get_cell_list: `{p}` reaches the extension exactly as given")
+        else:
+            rep.violation(rid, f"get_cell_list: argument `{p}`", f"the extension receives `{norm(a)}` (redefined inside the wrapper), not the caller's "
+                          f"`{p}`: images, offsets and displacements then refer to other coordinates than the caller's atoms (e.g. wrapped ones), so "
+                          "a reported image no longer sits at original + offset.cell", M.where(fq, c[0]))
+    if len(c[0].args) != len(ps):
+        rep.violation(rid, "get_cell_list: arity", f"{len(c[0].args)} arguments for 5 C++ parameters", M.where(fq, c[0]))
 
 
 def run(rep, ctx):
